@@ -47,6 +47,8 @@
 (*                          with EXDEV, no command that writes completes    *)
 (*  mutants (to show that the invariants bite; never in Ideal / AsIs)       *)
 (*   UidlistBeforeFile NoPersistN WriteInPlace SkipSubsWrite                *)
+(*   MoveRemoveFirst   MOVE = remove the source file, then deliver a copy   *)
+(*                     into the destination (C14: the message is in limbo)  *)
 (***************************************************************************)
 EXTENDS Naturals, Sequences, FiniteSets, TLC
 
@@ -216,9 +218,13 @@ BMove(f, uid, g) ==
   /\ CanBegin /\ sel = f /\ Entry(f, uid) # {} /\ Usable(g) /\ g # f
   /\ KeyOf(f, uid) \in LiveKeys(f)
   /\ LET a == CHOOSE x \in Entry(f, uid) : TRUE
+         rm == "MoveRemoveFirst" \in Dev       \* mutant: unlink the source, then write a copy
      IN Start([NoCmd EXCEPT !.op = "Move", !.f = f, !.g = g, !.uid = uid, !.key = KeyOf(f, uid),
-                            !.fl = a.fl, !.sub = SubOf(g)],
-              Reset(f) \o Reset(g) \o <<I("mvmsg", f, g, 0)>> \o AddRec(g) \o Ack, 1)
+                            !.m = IF rm THEN a.c ELSE 0, !.fl = a.fl, !.sub = SubOf(g)],
+              Reset(f) \o Reset(g)
+              \o (IF rm THEN <<I("rmmsg", f, "", KeyOf(f, uid))>> \o AddFile(g, SubOf(g))
+                  ELSE <<I("mvmsg", f, g, 0)>>)
+              \o AddRec(g) \o Ack, 1)
   /\ UNCHANGED <<dirs, files, ul, lockf, subsf, slock, temp, mem, sel, created, seen,
                  gone, failed, nextKey, nextVal, nmsg, nsel, ncrash, phase, last>>
 
@@ -580,6 +586,26 @@ AckedSubscriptionsPersist ==
               \/ (g \in subsAcked <=> g \in subsf.ss)
 
 AckedCreatesPersist == Quiet => \A f \in created : dirs[f] >= 4
+
+\* ---- C14 at filesystem-operation granularity -------------------------------------------
+\* "At every instant ... a message being moved exists in the source or the destination":
+\* the file of the MOVE in flight - or of the MOVE that was in flight when the process was
+\* killed - is in one of the two folders in EVERY state (running, crashed, restarted) ...
+Moving == IF cur.op = "Move" THEN cur ELSE infl
+MoveFileSomewhere ==
+  Moving.op = "Move" => Moving.key \in LiveKeys(Moving.f) \cup LiveKeys(Moving.g)
+\* ... and the server that comes up after Crash (enabled in every state) + Restart SERVES the
+\* message from one of the two (a renamed file without a record is adopted by reset())
+MoveNeverInLimbo ==
+  (Quiet /\ infl.op = "Move") =>
+     \A a \in acked : (a.f = infl.f /\ a.uid = infl.uid) =>
+        \E s \in Served(infl.f) \cup Served(infl.g) : s.c = a.c
+\* "after a completed MOVE in exactly one of them": when the OK is about to be written the
+\* file has left the source and the destination serves it under the UID COPYUID will name
+MoveExactlyOne ==
+  (phase = "run" /\ cur.op = "Move" /\ prog # <<>> /\ prog[1].k = "ack") =>
+     /\ cur.key \notin LiveKeys(cur.f)
+     /\ \E s \in Served(cur.g) : s.key = cur.key /\ s.uid = cur.nuid
 
 TypeOK == /\ phase \in {"run", "crashed"}
           /\ \A f \in Names : dirs[f] \in 0..5 /\ ul[f].st \in {"none", "ok", "torn"}
